@@ -18,7 +18,7 @@ def solve(mk, st, method, nt, opts, d, m, B, ts, dt, degy=2, adjoint=False, adjo
         sde = sdes.PolySDE(mk, st, nt, d=d, m=mm, degt=1, degy=degy, params_grad=True)
     if bm is None:
         bm = sdes.KeyedBM(mk, B, mm, levy=sdes.levy_for(method))
-    y0 = mk('y0', (B, d), values=0.3 + 0.1 * np.arange(B * d).reshape(B, d), requires_grad=True)
+    y0 = mk('y0', (B, d), values=0.3 + 0.1 * np.arange(B * d).reshape(B, d), requires_grad=kw.pop('y0_grad', True))
     tst = torch.tensor(ts, dtype=torch.float64)
     if adjoint:
         ys = torchsde.sdeint_adjoint(sde, y0, tst, bm=bm, method=method, adjoint_method=adjoint_method, dt=dt, options=dict(opts), **kw)
